@@ -390,7 +390,10 @@ def main(tier):
         'functions_encoded': len(fn_calls), 'mir_function_calls': fn_calls,
         'builtins_hit': fw.merge_dict_counts(results, 'builtin_calls'),
         'solver': 'z3 ' + z3.get_version_string(), 'solver_s_obligations': round(cnt['solver_s'], 1), 'mir': info,
-        'bounds': {'cpr_values': 'all four 17-bit values symbolic', 'orders': ['even,odd', 'odd,even'], 'solver_cap_s_per_query': to // 1000},
+        'bounds': {'cpr_values': 'all four 17-bit values symbolic', 'orders': ['even,odd', 'odd,even'], 'solver_cap_s_per_query': to // 1000,
+                   'lon_edge_search': ('quick tier only: longitude in [-180, 180) searched for counterexamples with the latest lon_cpr fixed to each of %s, the other '
+                                       'lon_cpr any of these, latitudes symbolic, 60 s per query; bug hunting (timeouts are undecided_sub_claims, no claim)' % (LON_EDGE,))
+                   if tier == 'quick' else 'not used (the thorough tier decides the longitude range for all inputs)'},
         'explanation': 'get_position / cpr_nl are executed symbolically (MIR), the resulting closed-form f64 terms are queried in QF_FP; '
                        'sub-claims the solver does not settle within the cap are listed under undecided_sub_claims and are not part of the verdict',
     }
